@@ -144,6 +144,11 @@ func RunBO(f *px.Fixture, ex *px.Exchange, c Cfg, tok string, gdeadline time.Dur
 	case ev == "PFc":
 		f.PoolFail(types.ConnectionFailure)
 	case strings.HasPrefix(ev, "L"):
+		if ex.Done() {
+			// the trigger ended the exchange (no retry): its objects went back to the pools, a frame of the finished attempt has
+			// no receiver any more (the codec dropped the stream from its table when the answer was delivered)
+			break
+		}
 		rh, rb, rt := px.AnswerOf(k, ev[1] == '1', ev[2] == '1')
 		a.RespondInFlight(rh, rb, rt)
 	case ev == "GT" || ev == "GSm" || ev == "GSs":
